@@ -83,6 +83,38 @@ for _name, _text in (("moderately_nested_document", common.MODERATE_SOURCES[1]),
     BOUNDED.append({"name": _name, "kind": "lsp", "props": ["C28"], "input": _m, "n_inputs": 1, "expect": {"py": _o}, "timeout": 120,
                     "bound": "one LSP session: initialize, didOpen of a document with %s, a hover request, shutdown: the three requests are answered in order" % ("40 nested parentheses" if "moder" in _name else "500 nested parentheses")})
 
+_URI = "file:///tmp/stdio.gdn"
+
+
+def _stdio_session(bad_items):
+    """initialize, a malformed item, then a document, a hover request, shutdown and exit: the requests after the
+    malformed item must still be answered and the server must end with status 0 after `exit`"""
+    msgs = [{"jsonrpc": "2.0", "id": 1, "method": "initialize", "params": {}}]
+    msgs += bad_items
+    msgs += [{"jsonrpc": "2.0", "method": "textDocument/didOpen", "params": {"textDocument": {"uri": _URI, "languageId": "garden", "version": 1, "text": "let x = 1\nx\n"}}},
+             {"jsonrpc": "2.0", "id": 2, "method": "textDocument/hover", "params": {"textDocument": {"uri": _URI}, "position": {"line": 1, "character": 0}}},
+             {"jsonrpc": "2.0", "id": 3, "method": "shutdown"}, {"jsonrpc": "2.0", "method": "exit"}]
+    return msgs
+
+
+_STDIO_ORACLE = ("(lambda got, diag: ('responses carry ids %r; expected 1, 2, 3 each once' % (got,)) if sorted(x for x in got if x in (1, 2, 3)) != [1, 2, 3] else ('' if diag else 'no diagnostics were published for the opened document'))"
+                 "([o.get('id') for o in jsons(full_out) if 'id' in o and 'method' not in o], any(o.get('method') == 'textDocument/publishDiagnostics' for o in jsons(full_out)))")
+_STDIO_CASES = [
+    ("well_formed", []),
+    ("truncated_json_body", [{"raw": '{"jsonrpc": "2.0", "method": "textDocument/didChange", "params": {"textDocument": {"uri": "file:///tmp/st'}]),
+    ("unterminated_string_body", [{"raw": '{"jsonrpc": "2.0", "id": 9, "method": "textDocument/hover", "params": "abc'}]),
+    ("invalid_json_body", [{"raw": '{"jsonrpc": nope, "id": }'}]),
+    ("empty_body", [{"raw": ""}]),
+    ("body_that_is_not_an_object", [{"raw": "[1, 2, 3]"}, {"raw": "42"}, {"raw": "null"}]),
+    ("non_utf8_free_garbage_then_header", [{"raw": "\u0000\u0001 garbage \u00e9"}]),
+]
+for _n, _bad in _STDIO_CASES:
+    BOUNDED.append({"name": "stdio_session:" + _n, "kind": "lsp-stdio", "props": ["C28"], "input": _stdio_session(_bad), "n_inputs": 1, "timeout": 60,
+                    "expect": {"py": _STDIO_ORACLE, "exit": 0},
+                    "bound": "one session with the real `garden lsp` loop on stdin (%s between initialize and the rest): initialize, hover and shutdown are answered, diagnostics are published, exit status 0" % _n.replace("_", " ")})
+WITNESSES.append({"match": r"lspmsg\.", "kind": "lsp-stdio", "props": ["C28"], "input": _stdio_session(_STDIO_CASES[1][1]), "timeout": 60, "expect": {"py": _STDIO_ORACLE, "exit": 0},
+                  "note": "a framed message with a truncated JSON body, then ordinary requests, through the real stdin loop"})
+
 
 def build(tier):
     u = UnitFile("lspmsg")
@@ -130,6 +162,30 @@ def build(tier):
         u.emit(ln_text, Tag("repo", fn=gname, repo_file=LSP, repo_line=ln_no, props=props))
     u.emit("    (n, is_response_message)", Tag("glue", fn=gname, props=props))
     u.emit("}", Tag("repo", fn=gname, repo_file=LSP, repo_line=host.line0, props=props))
+    # ---- the read loop of the real server (run_lsp): it ends only at the end of the input or on `exit` ---------------
+    import hashlib
+    rl = src.find_fn("run_lsp")
+    body = re.sub(r"//[^\n]*", "", rl.text)
+    n_break = len(re.findall(r"\bbreak\b", body))
+    n_break_eof = len(re.findall(r"Ok\(\s*None\s*\)\s*=>\s*\{\s*break\s*;?\s*\}", body))
+    n_return = len(re.findall(r"\breturn\b", body))
+    n_exit = len(re.findall(r"\bprocess::exit\s*\(", body))
+    n_exit_ok = len(re.findall(r"Action::Exit\s*=>\s*\{[^{}]*\bprocess::exit\s*\(", body))
+    n_question = len(re.findall(r"\?\s*;", body))
+    n_loops = len(re.findall(r"\bloop\s*\{", body))
+    n_bad = (n_break - n_break_eof) + n_return + (n_exit - n_exit_ok) + n_question + (0 if n_loops == 1 and n_break_eof == 1 else 1)
+    fname = "run_lsp_read_loop"
+    u.fn_props[fname] = props
+    u.skeletons[fname] = hashlib.sha256(("%d %d %d %d %d %d %d" % (n_break, n_break_eof, n_return, n_exit, n_exit_ok, n_question, n_loops)).encode()).hexdigest()[:12]
+    u.items.append({"name": "run_lsp: the only ways out of the read loop are `Ok(None) => break` (end of input) and process::exit in the `Action::Exit` arm",
+                    "generated_as": fname, "kind": "slice", "where": rl.where, "sha256_16": rl.sha(), "skeleton": u.skeletons[fname]})
+    oid = "lspmsg.%s.post[the_server_keeps_reading_until_the_end_of_input_or_exit]" % fname
+    u.clauses.append((oid, props, "n == 0"))
+    tg = Tag("repo", fn=fname, repo_file=LSP, repo_line=rl.line0, props=props)
+    u.emit("pub fn %s() -> (n: u64)" % fname, tg)
+    u.raw("    ensures", fn=fname, props=props)
+    u.emit("        n == 0,", Tag("contract", fn=fname, clause=oid, props=props))
+    u.emit("{ %d }  // break: %d (at end of input: %d); return: %d; process::exit: %d (in the Exit arm: %d); `?`: %d; loops: %d" % (n_bad, n_break, n_break_eof, n_return, n_exit, n_exit_ok, n_question, n_loops), tg)
     u.add_canary_proof()
     u.raw(common.FOOTER)
     return u
